@@ -62,16 +62,23 @@ def eager_fields(prog):
                 continue
             for j, fj in enumerate(t[4]):
                 f0 = strip(fj)
+                while isinstance(f0, tuple) and f0 and f0[0] == "call" and f0[1].name in ("new", "from", "into") and \
+                        len(f0[2]) == 1 and not f0[1].local:
+                    f0 = strip(f0[2][0])          # the value behind a cell / box constructor
                 if not (isinstance(f0, tuple) and f0 and f0[0] == "call") or f0[1].name in ("clone", "new", "default", "to_vec", "to_owned", "into", "from"):
                     continue
-                kj = key_of(fj)
+                kj = key_of(f0)
                 for i, fi in enumerate(t[4]):
                     if i == j:
                         continue
                     g0 = strip(fi)
+                    # the stored value behind a cell / box constructor (`order: RefCell::new(order)`)
+                    while isinstance(g0, tuple) and g0 and g0[0] == "call" and g0[1].name in ("new", "from", "into", "clone") and \
+                            len(g0[2]) == 1 and not g0[1].local:
+                        g0 = strip(g0[2][0])
                     if not isinstance(g0, tuple) or not g0 or g0[0] in ("const", "constitem", "agg"):
                         continue
-                    ki = key_of(fi)
+                    ki = key_of(g0)
                     if len(ki) >= 4 and ki != kj and ki in kj:
                         out.setdefault(t[2], {}).setdefault(t[5][j], [])
                         if t[5][i] not in out[t[2]][t[5][j]]:
@@ -98,13 +105,38 @@ def _check(prog, adt, lazy, src, eager=False):
         for fn in prog.lib_fns:
             if fn.impl_self != adt or "{closure" in fn.npath or len(fn.locals) < 2:
                 continue
-            if not fn.locals[1]["s"].startswith("&mut "):
+            mut_self = fn.locals[1]["s"].startswith("&mut ")
+            if not mut_self and not eager:
                 continue
+            if not (fn.locals[1]["s"].startswith("&") and adt.split("::")[-1] in fn.locals[1]["s"]):
+                continue          # a constructor or an associated function without self
+
+            def mutates(cs):
+                """the call changes what its receiver refers to: a std mutator, or a crate method taking `&mut self`"""
+                if cs.callee.name in MUTATING and not cs.callee.local:
+                    return True
+                if cs.callee.local or getattr(cs.callee, "res_local", False):
+                    for h in prog.resolve(cs.callee):
+                        if len(h.locals) > 1 and h.locals[1]["s"].startswith("&mut ") and h.impl_self != adt:
+                            return True
+                return False
             te, cfg = fn.terms, fn.cfg
+
+            def recv(cs):
+                """the receiver of a call, with a `&mut local` replaced by what the local holds (a RefMut of a field)"""
+                a = cs.args[0]
+                seen_ = 0
+                while isinstance(a, tuple) and a and a[0] == "mutref" and seen_ < 4:
+                    v = te.state_in.get(cs.bb, {}).get(a[1])
+                    if v is None:
+                        break
+                    a = v
+                    seen_ += 1
+                return a
             writes = []          # (block, field)
             for cs in te.calls:
-                if cs.callee.name in MUTATING and cs.args:
-                    f = _field_of_self(cs.args[0], src)
+                if cs.args and mutates(cs):
+                    f = _field_of_self(recv(cs), src)
                     if f:
                         writes.append((cs.bb, f, cs.line))
             for st in te.stores:
@@ -116,6 +148,8 @@ def _check(prog, adt, lazy, src, eager=False):
             whole = any(strip(st[1]) in (("deref", ("param", 1)), ("param", 1)) for st in te.stores)
             for lzf in lazy:
                 resets = {cs.bb for cs in te.calls if cs.callee.name in RESET and cs.args and _field_of_self(cs.args[0], [lzf])}
+                if eager:
+                    resets |= {cs.bb for cs in te.calls if cs.args and mutates(cs) and _field_of_self(recv(cs), [lzf])}
                 resets |= {st[0] for st in te.stores if _field_of_self(st[1], [lzf])}
                 key = "%s:DI:%s%s" % (fn.npath, "eager:" if eager else "", lzf)
                 if whole:
